@@ -317,6 +317,93 @@ func (m *Model) RunRegistry(s *Sink, rule string) {
 	} else {
 		s.Violation(rule, ek+"|result converted by NativeToObject", m.Pos(ec.Pos()), "custom function results are not converted with NativeToObject: they would not appear as if passed as data")
 	}
+	// every custom-function result reaches the template as the object that value would be as data: on every path from
+	// the call to a return it goes through NativeToObject or into a fresh object of its type (no shortcut such as nil -> NIL)
+	nDyn := 0
+	for _, fn := range ecSet {
+		for _, b := range fn.Blocks {
+			for idx, in := range b.Instrs {
+				c, ok := in.(*ssa.Call)
+				if !ok || c.Call.StaticCallee() != nil || c.Call.IsInvoke() || !strings.HasSuffix(types.TypeString(c.Call.Value.Type(), nil), "CustomFunc") {
+					continue
+				}
+				nDyn++
+				derives := func(v ssa.Value) bool {
+					for i := 0; i < 4; i++ {
+						if v == ssa.Value(c) {
+							return true
+						}
+						switch x := v.(type) {
+						case *ssa.Convert:
+							v = x.X
+						case *ssa.ChangeType:
+							v = x.X
+						case *ssa.MakeInterface:
+							v = x.X
+						default:
+							return false
+						}
+					}
+					return v == ssa.Value(c)
+				}
+				passes := func(bb *ssa.BasicBlock, from int) bool {
+					for i := from; i < len(bb.Instrs); i++ {
+						switch x := bb.Instrs[i].(type) {
+						case *ssa.Call:
+							if x.Call.StaticCallee() == nto {
+								return true
+							}
+							if sc := x.Call.StaticCallee(); sc != nil && m.InModule(sc) {
+								for _, a := range x.Call.Args {
+									if derives(a) {
+										return true // handed to a module conversion helper (checked by R-KINDS for its own contract)
+									}
+								}
+							}
+						case *ssa.Store:
+							if fa, isFA := x.Addr.(*ssa.FieldAddr); isFA && derives(x.Val) {
+								if _, fresh := fa.X.(*ssa.Alloc); fresh {
+									return true
+								}
+							}
+						}
+					}
+					return false
+				}
+				seen := map[*ssa.BasicBlock]bool{}
+				escape := ""
+				var walk func(bb *ssa.BasicBlock, from int)
+				walk = func(bb *ssa.BasicBlock, from int) {
+					if escape != "" || (from == 0 && seen[bb]) {
+						return
+					}
+					if from == 0 {
+						seen[bb] = true
+					}
+					if passes(bb, from) {
+						return
+					}
+					if ret, isRet := bb.Instrs[len(bb.Instrs)-1].(*ssa.Return); isRet {
+						escape = m.InstrPos(ret)
+						return
+					}
+					for _, sc := range bb.Succs {
+						walk(sc, 0)
+					}
+				}
+				walk(b, idx+1)
+				key := fmt.Sprintf("%s|result of the %s function becomes the object its value would be as data", fnKey(fn), shortTypeName(types.TypeString(c.Call.Value.Type(), nil)))
+				if escape == "" {
+					s.OK(rule, key, m.InstrPos(c), "every path from the call to a return passes NativeToObject or stores the result into a fresh object")
+				} else {
+					s.Violation(rule, key, escape, "a path from the custom function call to this return bypasses the conversion of its result (e.g. a nil slice answered with NIL instead of the empty array the same value gives as data)")
+				}
+			}
+		}
+	}
+	if nDyn < 5 {
+		s.Undecided(rule, ek+"|custom function calls", m.Pos(ec.Pos()), "expected calls through the five custom-function tables, found %d", nDyn)
+	}
 	// fall-through error names function and receiver type
 	okErr := false
 	var ecBlocks []*ssa.BasicBlock
@@ -354,6 +441,29 @@ func hitBlock(ex *ssa.Extract) *ssa.BasicBlock {
 
 // RunValSiblings: Val() of every value kind returns its payload, containers convert every element recursively.
 func (m *Model) RunValSiblings(s *Sink, rule string) {
+	// the conversion handed to user functions is a fresh Go value on every call: Val() writes nothing but memory it
+	// allocates itself (no cache on the object, no package-level memo) and does not hand out the object's own storage
+	ea := m.Effects()
+	for _, fn := range m.ModFns {
+		if fn.Blocks == nil || canonFnName(fn) != "Val" || shortPkg(fnPkgPath(fn)) != "object" || fn.Signature.Recv() == nil {
+			continue
+		}
+		key := fnKey(fn) + "|writes nothing but the value it builds"
+		sum := ea.sums[fn]
+		if sum == nil {
+			s.Undecided(rule, key, m.Pos(fn.Pos()), "no effect summary")
+			continue
+		}
+		bad := ""
+		for _, w := range sum.writes {
+			bad = fmt.Sprintf("%s at %s", w.what, w.pos)
+		}
+		if bad == "" {
+			s.OK(rule, key, m.Pos(fn.Pos()), "no store, map update or in-place append reaches the receiver or package-level memory")
+		} else {
+			s.Violation(rule, key, m.Pos(fn.Pos()), "%s writes memory that outlives the call (%s): a converted value cached on the object is shared by every custom function that receives it, so one call can change what a later call sees", fnKey(fn), bad)
+		}
+	}
 	for _, tn := range []string{"Int", "Float", "Str", "Bool"} {
 		fn := m.Method("object", tn, "Val")
 		key := fmt.Sprintf("object.(*%s).Val|returns its payload", tn)
